@@ -306,7 +306,13 @@ def main(fd, verbose=0):
                     if verbose:
                         util.debug(f"[ResourceTracker] unlink {name}")
                 except Exception as e:
-                    warnings.warn(f"resource_tracker: {name}: {e!r}")
+                    # Report the failure but never let it (e.g. a warning
+                    # turned into an error by -W error) stop the cleanup of
+                    # the remaining resources.
+                    try:
+                        warnings.warn(f"resource_tracker: {name}: {e!r}")
+                    except Exception:
+                        pass
 
         for rtype, rtype_registry in registry.items():
             if rtype == "folder":
